@@ -635,8 +635,279 @@ fn arb_scenario() -> impl Strategy<Value = Scenario> {
         .prop_map(|(clients, handler_threads, poll_ms, heartbeat, external, late_broadcasts)| Scenario { clients, handler_threads, poll_ms, heartbeat, external, late_broadcasts })
 }
 
+// ------------------------------------------------------------------------------------------ broadcasts to nobody
+
+/// A minimal reference client for the sub-scenario below: handshake, then a reader thread that answers pings and
+/// collects data frames.
+struct MiniClient {
+    sock: std::net::TcpStream,
+    addr: SocketAddr,
+    received: Arc<Mutex<(Vec<Vec<u8>>, bool)>>,
+    reader: Option<std::thread::JoinHandle<()>>,
+}
+
+impl MiniClient {
+    fn connect(server: SocketAddr) -> Result<MiniClient, String> {
+        let mut sock = connect_retry(server, Duration::from_secs(5)).map_err(|e| e.to_string())?;
+        let _ = sock.set_nodelay(true);
+        let addr = sock.local_addr().map_err(|e| e.to_string())?;
+        sock.write_all(b"GET /ws HTTP/1.1\r\nHost: c12\r\nUpgrade: websocket\r\nConnection: Upgrade\r\nSec-WebSocket-Key: dGhlIHNhbXBsZSBub25jZQ==\r\nSec-WebSocket-Version: 13\r\n\r\n").map_err(|e| e.to_string())?;
+        let mut buf = Vec::new();
+        let mut tmp = [0u8; 4096];
+        let _ = sock.set_read_timeout(Some(Duration::from_secs(10)));
+        let head_len = loop {
+            match parse_response(&buf, false) {
+                RespParse::Complete(r) if r.status == 101 => break r.consumed,
+                RespParse::Complete(r) => return Err(format!("handshake status {}", r.status)),
+                RespParse::Invalid(e) => return Err(e),
+                _ => {}
+            }
+            match sock.read(&mut tmp) {
+                Ok(0) | Err(_) => return Err("EOF during handshake".into()),
+                Ok(n) => buf.extend_from_slice(&tmp[..n]),
+            }
+        };
+        let received: Arc<Mutex<(Vec<Vec<u8>>, bool)>> = Arc::new(Mutex::new((Vec::new(), false)));
+        let rec2 = received.clone();
+        let mut rs = sock.try_clone().map_err(|e| e.to_string())?;
+        let mut wr = sock.try_clone().map_err(|e| e.to_string())?;
+        let mut data: Vec<u8> = buf[head_len..].to_vec();
+        let reader = std::thread::spawn(move || {
+            let _ = rs.set_read_timeout(None);
+            let mut tmp = [0u8; 65536];
+            loop {
+                loop {
+                    match ws::decode(&data) {
+                        Decoded::Frame(f, n) => {
+                            data.drain(..n);
+                            match f.opcode {
+                                9 => {
+                                    let _ = wr.write_all(&ws::encode(&RFrame { fin: true, rsv: [false; 3], opcode: 10, mask: Some([7, 8, 9, 10]), payload: f.payload.clone() }));
+                                }
+                                1 | 2 => rec2.lock().unwrap().0.push(f.payload),
+                                _ => {}
+                            }
+                        }
+                        Decoded::Truncated { .. } => break,
+                        Decoded::ReservedOpcode => {
+                            data.clear();
+                            break;
+                        }
+                    }
+                }
+                match rs.read(&mut tmp) {
+                    Ok(0) | Err(_) => {
+                        rec2.lock().unwrap().1 = true;
+                        return;
+                    }
+                    Ok(n) => data.extend_from_slice(&tmp[..n]),
+                }
+            }
+        });
+        Ok(MiniClient { sock, addr, received, reader: Some(reader) })
+    }
+    fn has(&self, m: &[u8]) -> bool {
+        self.received.lock().unwrap().0.iter().any(|x| x == m)
+    }
+    fn wait_for(&self, m: &[u8], limit: Duration) -> bool {
+        let t = Instant::now();
+        while t.elapsed() < limit {
+            if self.has(m) {
+                return true;
+            }
+            std::thread::sleep(Duration::from_millis(1));
+        }
+        self.has(m)
+    }
+    fn close(mut self) -> Vec<Vec<u8>> {
+        let _ = self.sock.write_all(&ws::encode(&RFrame { fin: true, rsv: [false; 3], opcode: 8, mask: Some([1, 2, 3, 4]), payload: vec![0x03, 0xe8] }));
+        let t = Instant::now();
+        while !self.received.lock().unwrap().1 && t.elapsed() < Duration::from_secs(5) {
+            std::thread::sleep(Duration::from_millis(1));
+        }
+        let _ = self.sock.shutdown(std::net::Shutdown::Both);
+        if let Some(r) = self.reader.take() {
+            let _ = r.join();
+        }
+        let g = self.received.lock().unwrap();
+        g.0.clone()
+    }
+}
+
+#[derive(Clone, Debug, Serialize, Deserialize)]
+pub struct NobodyScenario {
+    pub poll_ms: u8,
+    pub handler_threads: usize,
+    /// a first client connects and leaves before the broadcasts (so the set of streams has been non-empty once)
+    pub earlier_client: bool,
+    /// the disconnect handler itself broadcasts "<addr> left" (a server-side send while nobody is connected)
+    pub farewell_from_handler: bool,
+    /// external broadcasts issued while nobody is connected
+    pub stale: u8,
+}
+
+/// "A broadcast reaches every client connected at that moment": broadcasts issued while nobody is connected reach
+/// nobody — in particular not the client that connects well after them. The app drains its outgoing queue once per
+/// poll iteration (<= 10 ms apart), so a client that starts connecting 700 ms after the last such broadcast was
+/// queued cannot have been connected "at that moment"; the wait is watched by a canary (a harness thread that oversleeps
+/// by more than 150 ms makes the case inconclusive: the machine was too busy for a time-based judgement).
+pub fn run_nobody(s: &NobodyScenario, ip: &str) -> Vec<Fail> {
+    #[derive(Default)]
+    struct St {
+        log: Mutex<Vec<Ev>>,
+    }
+    let st = Arc::new(St::default());
+    let farewell = s.farewell_from_handler;
+    let (ws_tx, ws_rx) = std::sync::mpsc::channel();
+    let ws_app: AsyncWebsocketApp<Arc<St>> = AsyncWebsocketApp::new_unlinked_with_config(st.clone(), s.handler_threads.clamp(1, 8))
+        .with_polling_interval(if s.poll_ms % 11 == 0 { None } else { Some(Duration::from_millis(s.poll_ms as u64 % 11)) })
+        .with_shutdown(ws_rx)
+        .with_connect_handler(|stream: AsyncStream, state: Arc<Arc<St>>| state.log.lock().unwrap().push(Ev::Connect(stream.peer_addr())))
+        .with_disconnect_handler(move |stream: AsyncStream, state: Arc<Arc<St>>| {
+            if farewell {
+                stream.broadcast(Message::new(format!("left:{}", stream.peer_addr())));
+            }
+            state.log.lock().unwrap().push(Ev::Disconnect(stream.peer_addr()));
+        })
+        .with_message_handler(|_stream: AsyncStream, _m: Message, _state: Arc<Arc<St>>| {});
+    let hook = ws_app.connect_hook().unwrap();
+    let sender = ws_app.sender();
+    let app: App<()> = App::new_with_config(2, ()).with_websocket_route("/ws", async_websocket_handler(hook));
+    let running = match start_app(app, ip) {
+        Ok(r) => r,
+        Err(e) => return vec![Fail::new("harness-app", e)],
+    };
+    let (done_tx, done_rx) = std::sync::mpsc::channel();
+    std::thread::spawn(move || {
+        ws_app.run();
+        let _ = done_tx.send(());
+    });
+    let mut fails = Vec::new();
+    let wait_log = |pred: &dyn Fn(&[Ev]) -> bool, limit: Duration| {
+        let t = Instant::now();
+        loop {
+            if pred(&st.log.lock().unwrap()) {
+                return true;
+            }
+            if t.elapsed() >= limit {
+                return false;
+            }
+            std::thread::sleep(Duration::from_millis(1));
+        }
+    };
+    let mut harness_err: Option<String> = None;
+    let mut forbidden: Vec<Vec<u8>> = Vec::new();
+    if s.earlier_client {
+        match MiniClient::connect(running.addr) {
+            Err(e) => harness_err = Some(e),
+            Ok(c) => {
+                let a = c.addr;
+                if !wait_log(&|l| l.contains(&Ev::Connect(a)), Duration::from_secs(10)) {
+                    fails.push(fail!("connect-count", "the first client's connect handler was not called within 10 s"));
+                }
+                let _ = c.close();
+                if !wait_log(&|l| l.contains(&Ev::Disconnect(a)), Duration::from_secs(10)) {
+                    fails.push(fail!("disconnect-count:close", "the first client sent Close; its disconnect handler was not called within 10 s"));
+                }
+                if farewell {
+                    forbidden.push(format!("left:{}", a).into_bytes());
+                }
+            }
+        }
+    }
+    for k in 0..s.stale % 4 {
+        let m = format!("stale#{}", k);
+        forbidden.push(m.clone().into_bytes());
+        sender.broadcast(Message::new(m));
+    }
+    // nobody is connected now; let far more than one poll interval go by, under the eye of a canary
+    let mut worst = Duration::ZERO;
+    let t_wait = Instant::now();
+    while t_wait.elapsed() < Duration::from_millis(700) {
+        let t = Instant::now();
+        std::thread::sleep(Duration::from_millis(5));
+        worst = worst.max(t.elapsed().saturating_sub(Duration::from_millis(5)));
+    }
+    let busy = worst > Duration::from_millis(150);
+    if harness_err.is_none() && fails.is_empty() {
+        match MiniClient::connect(running.addr) {
+            Err(e) => harness_err = Some(e),
+            Ok(c) => {
+                let a = c.addr;
+                if !wait_log(&|l| l.contains(&Ev::Connect(a)), Duration::from_secs(10)) {
+                    fails.push(fail!("connect-count", "the late client's connect handler was not called within 10 s"));
+                }
+                sender.broadcast(Message::new("fresh"));
+                if !c.wait_for(b"fresh", Duration::from_secs(10)) {
+                    fails.push(fail!("broadcast-lost", "a broadcast issued after the client's connect event was not delivered to it within 10 s (it stayed connected)"));
+                }
+                let got = c.close();
+                if let Some(m) = got.iter().find(|m| forbidden.contains(m)) {
+                    if busy {
+                        harness_err = Some(format!("machine too busy for a time-based judgement (a 5 ms sleep took {:?})", worst + Duration::from_millis(5)));
+                    } else {
+                        fails.push(fail!(
+                            "stale-broadcast-delivered",
+                            "the client that connected 700 ms after the broadcast {:?} had been issued to an app with no connected client received it (it received {:?}); poll interval {} ms",
+                            String::from_utf8_lossy(m),
+                            got.iter().map(|m| String::from_utf8_lossy(m).to_string()).collect::<Vec<_>>(),
+                            s.poll_ms % 11
+                        ));
+                    }
+                }
+                if got.iter().filter(|m| m.as_slice() == b"fresh").count() > 1 {
+                    fails.push(fail!("broadcast-duplicated", "one broadcast was delivered {} times to one client", got.iter().filter(|m| m.as_slice() == b"fresh").count()));
+                }
+            }
+        }
+    }
+    let _ = ws_tx.send(());
+    if done_rx.recv_timeout(Duration::from_secs(10)).is_err() {
+        fails.push(fail!("run-does-not-return", "AsyncWebsocketApp::run did not return within 10 s of the shutdown signal"));
+    }
+    if let Err(e) = running.stop(Duration::from_secs(15)) {
+        harness_err = Some(e);
+    }
+    if let Some(e) = harness_err {
+        return vec![Fail::new("harness-nobody", e)];
+    }
+    fails.truncate(1);
+    fails
+}
+
+fn nobody(ctx: &Ctx) {
+    let runs = ctx.tier.pick(32usize, 640usize);
+    let next = std::sync::atomic::AtomicUsize::new(0);
+    let found: Mutex<Vec<(Fail, J)>> = Mutex::new(Vec::new());
+    crate::engine::shards(16, |sh| loop {
+        let i = next.fetch_add(1, std::sync::atomic::Ordering::SeqCst);
+        if i >= runs {
+            break;
+        }
+        let mut rng = Lcg(pt::mix(ctx.seed, 12900 + i as u64));
+        let earlier = rng.next() % 2 == 0;
+        let s = NobodyScenario { poll_ms: (rng.next() % 11) as u8, handler_threads: 1 + (rng.next() % 4) as usize, earlier_client: earlier, farewell_from_handler: earlier && rng.next() % 2 == 0, stale: 1 + (rng.next() % 3) as u8 };
+        ctx.case(hash_of(&format!("{:?}", s)), true, &["broadcast-while-nobody-is-connected", if s.farewell_from_handler { "nobody:farewell-from-disconnect-handler" } else if s.earlier_client { "nobody:after-a-client-left" } else { "nobody:before-the-first-client" }]);
+        if i == 0 {
+            ctx.sample("broadcast-while-nobody-is-connected", || serde_json::to_value(&s).unwrap());
+        }
+        for f in run_nobody(&s, &format!("127.0.12.{}", 101 + sh)) {
+            if f.sig.starts_with("harness-") {
+                ctx.inconclusive(&f.detail);
+            } else {
+                found.lock().unwrap().push((f, serde_json::to_value(&s).unwrap()));
+            }
+        }
+    });
+    for (f, c) in found.into_inner().unwrap() {
+        if !ctx.tolerate(&f) {
+            ctx.violation(f, "nobody", c);
+        }
+    }
+}
+
 pub fn run(ctx: &Ctx) {
-    ctx.rule("scenarios of 1..8 reference clients (scripts over send text/binary in 1..3 fragments, bursts of 2..5 messages in one write, a fragmented message with a Pong or Ping between its fragments, ping, short sleeps; ending with Close, vanishing abruptly with the heartbeat on, or staying silent to the heartbeat pings and sending Close just as the pong timeout elapses) against AsyncWebsocketApp linked to a real App, handler pools of 1..8 threads, poll interval none..10 ms, an external AsyncSender issuing unicasts and broadcasts at generated moments, ending with shutdown; payloads carry (client#, seq#). Invariants over the handler event log and each client's received frames: connect and disconnect exactly once per client, each client message dispatched exactly once (multiset), with a 1-thread pool connect before the first message, messages in send order and nothing after disconnect; every echo unicast reaches only and exactly its client; external messages at most once, unicasts only at their addressee, required ones delivered; run() returns after the shutdown signal. Non-trivial: >=2 clients with a broadcast, an abrupt disconnect, or several messages in one write; distinct by scenario");
+    ctx.rule("scenarios of 1..8 reference clients (scripts over send text/binary in 1..3 fragments, bursts of 2..5 messages in one write, a fragmented message with a Pong or Ping between its fragments, ping, short sleeps; ending with Close, vanishing abruptly with the heartbeat on, or staying silent to the heartbeat pings and sending Close just as the pong timeout elapses) against AsyncWebsocketApp linked to a real App, handler pools of 1..8 threads, poll interval none..10 ms, an external AsyncSender issuing unicasts and broadcasts at generated moments, ending with shutdown; payloads carry (client#, seq#). Invariants over the handler event log and each client's received frames: connect and disconnect exactly once per client, each client message dispatched exactly once (multiset), with a 1-thread pool connect before the first message, messages in send order and nothing after disconnect; every echo unicast reaches only and exactly its client; external messages at most once, unicasts only at their addressee, required ones delivered; run() returns after the shutdown signal. Broadcasts to nobody: broadcasts issued (by an external sender, or by the disconnect handler of the last client) while no client is connected must not reach the client that connects 700 ms later, which must still get a fresh broadcast exactly once. Non-trivial: >=2 clients with a broadcast, an abrupt disconnect, or several messages in one write; distinct by scenario");
     ctx.assume("interleavings come from the OS scheduler plus generated delays (no controlled scheduler); ordering is demanded only with a 1-thread handler pool; clients answer heartbeat pings; heartbeat 100 ms / timeout 1.5 s");
     let cases = ctx.share(ctx.tier.pick(192u32, 3000u32)).max(16);
     let nshards = 16;
@@ -682,9 +953,16 @@ pub fn run(ctx: &Ctx) {
             },
         );
     });
+    nobody(ctx);
 }
 
-pub fn replay(ctx: &Ctx, _kind: &str, case: &J) -> Vec<Fail> {
+pub fn replay(ctx: &Ctx, kind: &str, case: &J) -> Vec<Fail> {
+    if kind == "nobody" {
+        return match serde_json::from_value::<NobodyScenario>(case.clone()) {
+            Ok(s) => run_nobody(&s, "127.0.12.99"),
+            Err(e) => vec![Fail::new("harness", format!("bad replay case: {}", e))],
+        };
+    }
     match serde_json::from_value::<Scenario>(case.clone()) {
         Ok(s) => run_scenario(&s, "127.0.12.99", ctx.seed).0,
         Err(e) => vec![Fail::new("harness", format!("bad replay case: {}", e))],
